@@ -735,6 +735,11 @@ def evalPureFn (name : String) (args : List Value) : Option (R Value) :=
   | "concat", _ => some (pure (.text (String.join ((args.filter (!·.isNull)).map Value.toText))))
   | "replace", [s, a, b] => some (pure (if s.isNull || a.isNull || b.isNull then .null
       else if a.toText.isEmpty then .text s.toText else .text (s.toText.replace a.toText b.toText)))
+  | "timezone", [z, t] => some (
+      -- `t AT TIME ZONE z`: every timestamp of the model is UTC wall-clock time
+      if z.isNull || t.isNull then pure .null
+      else if z.toText.toLower == "utc" then pure t
+      else throw (.unsupported s!"AT TIME ZONE {z.toText}"))
   | "abs", [.int n] => some (pure (.int n.natAbs))
   | "abs", [.null] => some (pure .null)
   | _, _ => none
